@@ -11,6 +11,7 @@ CONSTANTS
   Weak_InitChainAlways = FALSE
   Weak_CommitWithoutMempoolLock = FALSE
   Weak_NoFlushBeforeCommit = TRUE
+  Weak_NoEndHeightRepair = FALSE
 INIT Init
 NEXT Next
 INVARIANTS MempoolBracket
